@@ -215,6 +215,21 @@ class PVLParser(object):
         module.errors = sorted(self.errors)
         return module
 
+    @staticmethod
+    def _throw(tokens: abc.Generator, msg: str):
+        """Reports *msg* through tokens.throw(), which raises a LexerError
+        with the position of the offending token.  If *tokens* is already
+        exhausted, throw() would just re-raise the bare ValueError (which
+        callers take to mean "try another production"), so a ParseError
+        is raised instead.
+        """
+        try:
+            tokens.throw(ValueError, msg)
+        except LexerError:
+            raise
+        except ValueError:
+            raise ParseError(msg)
+
     def aggregation_cls(self, begin: str):
         """Returns an initiated object of the group_class or object_class
         as specified on this parser's creation, according to the value
@@ -367,7 +382,7 @@ class PVLParser(object):
                             # more) has been consumed, so callers must
                             # not take this as "not a block, try the next
                             # production", which would drop the block.
-                            tokens.throw(ValueError, str(ve))
+                            self._throw(tokens, str(ve))
 
         return block_name, agg
 
@@ -570,8 +585,8 @@ class PVLParser(object):
             # The Parameter Name has been consumed, so this is not
             # a mismatch on the first token that callers can recover
             # from by trying another production.
-            tokens.throw(
-                ValueError,
+            self._throw(
+                tokens,
                 f'Expecting an equals sign after "{parameter_name}" ',
             )
 
